@@ -140,6 +140,10 @@ Lemma py_while_more {S} (cond : S -> bool) (step : S -> S) : forall s, cond s = 
   forall fuel, py_while cond step (Datatypes.S fuel) s = py_while cond step fuel (step s).
 Proof. intros s H fuel. cbn. rewrite H. reflexivity. Qed.
 
+(* the while condition: geohash_position < length *)
+Lemma geq_coord_cond : forall len gh s ch bit pos, g_coord_to_niemeyer_cond len (mk gh s ch bit pos) = (pos <? len).
+Proof. reflexivity. Qed.
+
 Section Enc.
   Variable c : cfg.
   Variables lon lat : Q.
@@ -147,10 +151,6 @@ Section Enc.
   Notation cond := (g_coord_to_niemeyer_cond len).
   Notation step := (g_coord_to_niemeyer_step c lon lat).
   Notation p := (lon, lat).
-
-  (* the while condition: geohash_position < length *)
-  Lemma geq_coord_cond : forall gh s ch bit pos, cond (mk gh s ch bit pos) = (pos <? len).
-  Proof. reflexivity. Qed.
 
   Lemma index_middle : forall pre m ms, bits c = pre ++ m :: ms -> py_index (bits c) (Z.of_nat (length pre)) = m.
   Proof. intros pre m ms H. unfold py_index. rewrite Nat2Z.id, H. apply nth_middle. Qed.
